@@ -409,3 +409,29 @@ with_summaries(safety("trait_property_changed", "property_changed", returns="int
 CONVENTIONS["getattro"] = (("obj", "name"), ())
 with_summaries(safety("trait_getattro", "getattro", props=("C18",), doc="attribute read on a cTrait: unknown non-dunder names read as None"),
                is_dunder_name=_dunder_summary)
+
+
+def _numeric_summary(exact_type, label):
+    def mk(cx):
+        def conv(ex2, args, st, k):
+            v = args[0]
+            def general(s):
+                return ex2.api.python_call(s.log(("convert", label, v)), label, lambda r, s2: k(r, s2.assume(A.is_exact(r, exact_type))),
+                                           lambda s2: k(NULL, s2), result_prefix="number")
+            return cx.branch(st, A.is_exact(v, exact_type), lambda s: k(v, ex2.api.own_inc(s, v)), general)
+        return conv
+    return mk
+
+
+def items_event_extra(cx, ex, info, ret, st):
+    sets = [r for r in st.trace if r[0] == "setattr"]
+    adds = [r for r in st.trace if r[0] == "callmethod" and r[2] == "add_trait"]
+    return [("post:the-event-is-fired-at-most-once", z3.BoolVal(len(sets) <= 1)),
+            ("post:the-items-trait-is-added-at-most-once", z3.BoolVal(len(adds) <= 1)),
+            ("post:success-means-the-event-was-fired", z3.Implies(ret != NULL, z3.BoolVal(len(sets) == 1)))]
+
+
+# _has_traits_items_event jumps into a nested block (`goto add_trait`): outside the C subset of cvc; not under contract
+with_summaries(safety("_trait_default_value_for", "method", props=("C18", "C10"), doc="CTrait.default_value_for(object, name)"))
+with_summaries(safety("validate_trait_complex_number", "validate", props=("C18", "C03"), doc="Complex: exact complex as is, else converted"),
+               validate_complex_number=_numeric_summary("PyComplex_Type", "validate_complex_number"))
